@@ -630,6 +630,6 @@ for _p in ('C03', 'C08'):
     SPECS[_p]['obligations'] = SPECS[_p]['obligations'] + _secdt
 
 # index metadata is about the rows WRITTEN: with a cast dtype on the index channel those are the cast values
-_castidx = _pair('c13', 'cast_index', (120, 300), 'int32 index data (all values) x 1..3 rows x cast to int8 / int16 / uint8 / uint16 (numpy astype: narrowing wraps)',
-                 ['FrameItem._setup_frame_params_from_data'], replay=D + 'replay_cast_index', validate=D + 'replay_cast_index')
+_castidx = _pair('c13', 'cast_index', (120, 300), 'int32 index data (all values) x 1..2 rows (thorough: 3) x cast to int8 / int16 / uint8 / uint16 (numpy astype: narrowing wraps)',
+                 ['FrameItem._setup_frame_params_from_data'], replay=D + 'replay_cast_index', validate=D + 'replay_cast_index', shards=(8, 12))
 SPECS['C13']['obligations'] = SPECS['C13']['obligations'] + _castidx
